@@ -63,3 +63,8 @@ BUILT['C16'] = {
     'level': 'Runtime monitoring: the real bkli output for generated sets of 2-4 related/unrelated trees (all generated argument orders and format mixes) must equal an independent maximal-common-base computation (lists as multisets), bkli x x must give x, and for each input the real bkld from the bkli result followed by the real bkl must reproduce the input exactly. Holds for the executions produced only.',
     'note': 'Trusted: the independent intersection in harness/bv/props/c16.py, own serializers, independent decoders. Order of entries inside intersected lists is not judged.',
 }
+BUILT['C05'] = {
+    'technique': 'round-trip monitor (independent decoders + bkl re-read of its own output) and process-boundary format-selection monitor (library + CLI routes)',
+    'level': 'Runtime monitoring: generated streams full of token look-alikes and numeric edge values are written by the real library in all six formats; each output is decoded by an independent parser (python json, PyYAML restricted to the YAML 1.2 core schema, tomllib) and read back by bkl itself, and both must give the same documents; every combination of -f, -o extension, real/virtual input extension and the library defaults must write exactly Output(f) for the format the rule selects. Holds for the executions produced only.',
+    'note': 'Trusted: independent decoders, own input serializers. YAML-1.1-only readings are counted, not judged. Three upstream yaml.v3 emitter defects ("<<" key, "<<" value, leading newline) are recorded known findings and excluded from the generated alphabet.',
+}
